@@ -361,3 +361,67 @@ func c13DiffClass(d int64) string {
 		return "diff>0"
 	}
 }
+
+// TestVerifC13KeySizes: the completeness statement for the real key sizes - 1024, 2048 and 4096 bits,
+// whose parameter sets differ in more than the modulus (l_m = 512 and other response lengths at 4096).
+// (k4096w is built from two ordinary 2048-bit primes: safe primes of that size cannot be generated
+// here, and neither the holder nor the verifier can tell.)
+func TestVerifC13KeySizes(t *testing.T) {
+	r := vkit.Start(t, "C13", "completeness-per-key-size", 240*time.Second, 900*time.Second)
+	defer r.Finish()
+	r.Rule = "keys {1024, 2048, 4096 bits} x hidden attribute in {2^(lm-1)+12345, 2^lm-10, 77} x sign x factor {1,3,8} x difference {0, 5, 2^64} x splitter {four squares, table(64) for factor 1 and differences in the table}; non-trivial = distinct (key, attribute, statement); oracle: proof created, verifies (wire copy, single and in a list), Proves(statement)"
+	vfInstallEnv(t, "C13/keysizes", r.Seed)
+	table := rangeproof.GenerateSquaresTable(64)
+	for _, keyName := range []string{"k1024a", "k2048", "k4096w"} {
+		k := vfK(keyName)
+		pk := k.Pk
+		lm := pk.Params.Lm
+		vals := []*big.Int{new(big.Int).Add(vfPow2(lm-1), vfInt(12345)), new(big.Int).Sub(vfPow2(lm), vfInt(10)), vfInt(77)}
+		cred := vfMint(k, vfTag("c13-ks-secret"), vals, 1)
+		for ai, m := range vals {
+			for _, sign := range []int{1, -1} {
+				for _, factor := range []uint{1, 3, 8} {
+					if _, mine := r.Next(); !mine {
+						continue
+					}
+					if r.Expired() {
+						return
+					}
+					for _, d := range []*big.Int{vfInt(0), vfInt(5), vfPow2(64)} {
+						for _, sp := range []rangeproof.SquareSplitter{nil, table} {
+							if sp != nil && (factor != 1 || d.BitLen() > 6 || sign == -1 && d.Sign() == 0) {
+								continue // outside the table, or the known three-square equality case (K01)
+							}
+							st := c13Statement(m, sign, factor, d, sp)
+							if st.Bound.Sign() < 0 {
+								continue
+							}
+							desc := fmt.Sprintf("%s attribute #%d sign=%d factor=%d diff=%s 3sq=%v", keyName, ai, sign, factor, vfShort(d), sp != nil)
+							r.Eval()
+							r.Nontrivial(desc)
+							var p *ProofD
+							var err error
+							pan, msg := vkit.Guard(func() {
+								p, err = cred.CreateDisclosureProof([]int{}, map[int][]*rangeproof.Statement{ai + 1: {st}}, false, vfContext, vfNonce)
+							})
+							cls := fmt.Sprintf("%s|3sq=%v", keyName, sp != nil)
+							r.Outcome(fmt.Sprintf("%s:created=%v", cls, !pan && err == nil))
+							switch {
+							case pan:
+								r.Violate("C13|proof-creation-panicked|"+cls, desc+": "+msg, desc)
+							case err != nil:
+								r.Violate("C13|true-statement-not-provable|"+cls, fmt.Sprintf("%s: %v", desc, err), desc)
+							default:
+								if acc, _ := c12Verify(pk, p); !acc {
+									r.Violate("C13|true-statement-proof-rejected|"+cls, desc, desc)
+								} else if len(p.RangeProofs[ai+1]) != 1 || !p.RangeProofs[ai+1][0].Proves(st) {
+									r.Violate("C13|proof-does-not-report-requested-statement|"+cls, desc, desc)
+								}
+							}
+						}
+					}
+				}
+			}
+		}
+	}
+}
